@@ -97,6 +97,43 @@ CHECKS['C12'] = dict(
    note='Trusted: Coq kernel + vm_compute; translators; hand-written Model/Match.v, Model/FastMatch.v tied by correspondence; harness/c12.py, engine.py, driver.py. '
         'Whole-session equality is searched, not proved. Axiom-free.',
    tech='Rocq proof over regenerated kernels/read lists + two matcher models (chunk equivalence by induction); matcher correspondence; fast-vs-normal differential', ref='DESIGN.md section 6 (C12)')
+CHECKS['C13'] = dict(
+   text='Machine-checked theorems: every series produced by a state machine (Mealy machine: any state, any step) is causal, causality is closed under composition and '
+        'pointwise combination, hence each of the 25 modelled core series (sma, ema, wma, trima, roc, mom, var, wilders, dema, tema, macd line/signal/hist, rsi, atr, obv, '
+        'donchian x3, willr, stochastic %K, typical/median price - written as state machines in jesse\'s seeding/NaN conventions, exact rationals) computed on a prefix '
+        'equals the prefix of the series on the whole input, for every period and input. The models are evaluated in Coq against jesse.indicators on every run. All '
+        '~168 public indicators with a sequential mode are additionally put through a prefix monitor on the implementation.',
+   note='Trusted: Coq kernel + vm_compute; hand-written Model/Indicators.v tied by value correspondence (relative 1e-8); harness/c13.py, ind.py. The theorem covers the '
+        'modelled core only; for the other ~145 indicators the property is monitored, not proved: partial. Axiom-free.',
+   tech='Rocq proof (causality of state machines + closure lemmas) over hand models + value correspondence + prefix monitor over all indicators', ref='DESIGN.md section 6 (C13)')
+CHECKS['C14'] = dict(
+   text='Machine-checked theorems: for the shape of the public indicator functions - slice the candles to the warm-up window unless sequential, compute ANY series F, '
+        'return it or its last entry - the single value is the last entry of the sequential result on inputs within the window, and on longer inputs it is the last entry '
+        'of the sequential result on the trailing window; every state machine, and each of the 25 modelled core series, returns exactly one entry per input. Which of '
+        'the ~170 indicator files literally have that shape is classified syntactically on /repo each run; the core models are evaluated in Coq against jesse.indicators; '
+        'and a monitor checks all public indicators (every field: one entry per candle, last = single, long input = trailing window) at lengths below/at/above 240.',
+   note='Trusted: Coq kernel + vm_compute; hand-written Model/Indicators.v; harness/c14.py (AST shape classifier), ind.py. One-entry-per-candle is proved for the modelled '
+        'core only; the rest is monitored: partial. Axiom-free.',
+   tech='Rocq proof (shape theorem for arbitrary F + state-machine lengths) + syntactic shape classification + value correspondence + monitor over all indicators', ref='DESIGN.md section 6 (C14)')
+CHECKS['C15'] = dict(
+   text='Machine-checked theorems over textbook definitions of the core indicators written as state machines in exact rationals: RSI in [0,100] for every series and period, '
+        'Williams %R in [-100,0] and stochastic %K in [0,100] for every series of candles with low <= close <= high, Donchian lower <= middle <= upper and the channel '
+        'encloses every candle of the window, ATR and variance never negative (variance via n*sum(x^2) >= (sum x)^2, proved by induction), SMA and EMA scale linearly with '
+        'price. The definitions are evaluated in Coq against jesse.indicators (that is the agreement-with-an-independent-implementation clause, 25 series), and range, '
+        'ordering, selector and scaling monitors run on the implementation for the whole list of the property.',
+   note='Trusted: Coq kernel + vm_compute; hand-written Model/Indicators.v tied by value correspondence (relative 1e-8); harness/c15.py, ind.py. Indicators that need '
+        'square roots (stddev, Bollinger, Keltner with non-EMA, CCI constant) and the ADX family are monitored, not modelled: partial. Axiom-free.',
+   tech='Rocq proof of ranges/orderings/homogeneity over definitional models + value correspondence in Coq + implementation monitors', ref='DESIGN.md section 6 (C15)')
+CHECKS['C16'] = dict(
+   text='Machine-checked theorems over the trade-list metrics written as plain definitions (exact rationals), for EVERY list of trades: total = winners + losers + '
+        'break-even; net profit = sum of PnL = gross profit + gross loss; longs + shorts = total and the two percentages sum to 100; win rate lies in [0,1] and '
+        'win_rate*(W+L) = W; expectancy*(W+L) = net profit (all four win/loss cases); the largest win bounds every winner; and for every positive equity series the '
+        'maximum drawdown is never positive. The definitions are evaluated in Coq against services/metrics.trades on synthetic trade lists (22 reported values each); '
+        'the ratio metrics are compared with an independent recomputation of their standard definitions; the equity samples of real multi-day sessions are recomputed '
+        'independently at the moment they are taken.',
+   note='Trusted: Coq kernel + vm_compute; hand-written Model/Metrics.v tied by value correspondence; harness/c16.py, driver.py, engine.py. Sharpe/Sortino/Calmar/Omega/annual '
+        'return and the equity-sampling clauses are monitored, not proved: partial. Axiom-free.',
+   tech='Rocq proof of the metric identities over definitional models + value correspondence in Coq + ratio and equity-sample monitors', ref='DESIGN.md section 6 (C16)')
 CHECKS['C17'] = dict(
    text='Machine-checked theorems (exact rationals) over size_to_qty, risk_to_qty, risk_to_size, limit_stop_loss, floor_with_precision and the timeframe '
         'tables REGENERATED from /repo each run: cost incl. fees <= capital, risk <= requested share, at most one precision step below the exact quotient, '
